@@ -428,6 +428,16 @@ func scribble(snaps []*ledger.Snapshot) {
 	}
 }
 
+// sizesChoice: the fan-out scenarios run with bodies of a few hundred bytes and with bodies of 9-12
+// bytes (a body that small fits, together with a protocol header, into the spare capacity of a
+// pooled header buffer - a copy that is only "fresh when append reallocates" is not fresh then).
+func sizesChoice() (int, int) {
+	if kit.ChooseFree(2) == 1 {
+		return 12, 9
+	}
+	return 200, 70
+}
+
 func fanoutPubSub() {
 	ledger.Install()
 	p, err := pub.NewSocket()
@@ -445,9 +455,11 @@ func fanoutPubSub() {
 	must(err, "OpenContext")
 	must(c2.SetOption(mangos.OptionSubscribe, "pay"), "Subscribe")
 	kit.Quiesce()
-	body := payload("payload", 200)
+	// (bodies small enough to fit beside a header in the 32 byte header buffer of a pooled message, or not)
+	big, mid := sizesChoice()
+	body := payload("payload", big)
 	s1 := kit.Start("Send1", func() (interface{}, error) { return nil, kit.SendBytes(p, []byte(body)) })
-	s2 := kit.Start("Send2", func() (interface{}, error) { return nil, kit.SendBytes(p, []byte(payload("zzz", 70))) })
+	s2 := kit.Start("Send2", func() (interface{}, error) { return nil, kit.SendBytes(p, []byte(payload("zzz", mid))) })
 	kit.Quiesce()
 	if !s1.Done() || !s2.Done() {
 		kit.Failf("fanout-send", "publisher blocked")
@@ -459,7 +471,7 @@ func fanoutPubSub() {
 	}
 	snaps = append(snaps, recvKeep("sub1.ctx", c2, body))
 	// more traffic of another size reuses whatever was released
-	_ = kit.SendBytes(p, []byte(payload("later", 200)))
+	_ = kit.SendBytes(p, []byte(payload("later", big)))
 	kit.Quiesce()
 	scribble(snaps)
 	kit.Must("Close", func() {
@@ -484,9 +496,10 @@ func fanoutMesh(c func() (mangos.Socket, error)) {
 		socks = append(socks, s)
 	}
 	kit.Quiesce()
-	body := payload("fromhub", 130)
+	big, _ := sizesChoice()
+	body := payload("fromhub", big)
 	a := kit.Start("SendHub", func() (interface{}, error) { return nil, kit.SendBytes(hub, []byte(body)) })
-	b := kit.Start("SendLeaf", func() (interface{}, error) { return nil, kit.SendBytes(socks[1], []byte(payload("fromleaf", 130))) })
+	b := kit.Start("SendLeaf", func() (interface{}, error) { return nil, kit.SendBytes(socks[1], []byte(payload("fromleaf", big))) })
 	kit.Quiesce()
 	if !a.Done() || !b.Done() {
 		kit.Failf("fanout-send", "sender blocked")
@@ -495,7 +508,7 @@ func fanoutMesh(c func() (mangos.Socket, error)) {
 	snaps = append(snaps, recvKeep("leaf1", socks[1], body))
 	snaps = append(snaps, recvKeep("leaf2", socks[2], ""))
 	snaps = append(snaps, recvKeep("hub", hub, ""))
-	_ = kit.SendBytes(hub, []byte(payload("again", 130)))
+	_ = kit.SendBytes(hub, []byte(payload("again", big)))
 	kit.Quiesce()
 	scribble(snaps)
 	kit.Must("Close", func() {
